@@ -85,17 +85,15 @@ impl Parser {
 
     /// Convert the input schemas to `parsed_schemas`.
     pub(super) fn parse_input_schemas(&mut self) -> Result<(), Error> {
-        while !self.input_schemas.is_empty() {
-            let next_name = self
-                .input_schemas
-                .keys()
-                .next()
-                .expect("Input schemas unexpectedly empty")
-                .to_owned();
-            let (name, value) = self
-                .input_schemas
-                .remove_entry(&next_name)
-                .expect("Key unexpectedly missing");
+        // Parse the inputs in the order they were given (not in the iteration order of the map), so
+        // that the same list always gives the same result. An input that an earlier one refers to
+        // has already been parsed on demand and is no longer in the map.
+        let mut position = 0;
+        while let Some(next_name) = self.input_order.get(position) {
+            position += 1;
+            let Some((name, value)) = self.input_schemas.remove_entry(next_name) else {
+                continue;
+            };
             let parsed = self.parse(&value, None)?;
             self.parsed_schemas
                 .insert(self.get_schema_type_name(name, &value)?, parsed);
